@@ -225,6 +225,9 @@ func (Engine) Run(t *tape.Tape, o eng.Opts) *eng.Result {
 		if fg.Chance(300) {
 			q.WPlan = append(q.WPlan, world.WFault{At: fg.Intn(4), Kind: 1 + fg.Intn(3), Keep: fg.Intn(8)})
 		}
+		if fg.Chance(60) {
+			q.WPlan = append(q.WPlan, world.WFault{At: fg.Intn(2), Kind: 4})
+		}
 		for rep := 0; rep < 2; rep++ {
 			if rep == 1 && !fg.Chance(300) {
 				break
@@ -262,7 +265,19 @@ func (Engine) Run(t *tape.Tape, o eng.Opts) *eng.Result {
 	// framework keeps between requests (pooled writers, ...) is then part of the history.
 	viaFlame := !withObserver && !bulk && method != "" && method != "head" && sw.Intn(4) == 1
 	var w flamego.ResponseWriter
-	if !viaFlame {
+	// One direct history in five runs on a wrapper stacked on another wrapper (what a nested
+	// instance or a "serve HEAD with the GET code" adapter builds): the inner one is a GET writer
+	// and therefore transparent, so everything the statement says about "the underlying writer"
+	// can still be read off the spy.
+	stacked := !viaFlame && !bulk && sw.Intn(5) == 1
+	// One via-Flame history in three rewrites the request's method inside the handler before it
+	// touches the writer (what a method-override middleware does); the request that arrived
+	// keeps deciding whether body bytes may be forwarded.
+	rewriteMethod := viaFlame && sw.Intn(3) == 1
+	if stacked {
+		w = flamego.NewResponseWriter(method, flamego.NewResponseWriter("GET", under))
+		res.Probes["stacked_wrappers"]++
+	} else if !viaFlame {
 		w = flamego.NewResponseWriter(method, under)
 	}
 	me := &histState{}
@@ -423,6 +438,14 @@ func (Engine) Run(t *tape.Tape, o eng.Opts) *eng.Result {
 			if viaFlame {
 				histBody = func(c flamego.Context) {
 					w = c.ResponseWriter()
+					if rewriteMethod {
+						if c.Request().Method == "HEAD" {
+							c.Request().Method = "GET"
+						} else {
+							c.Request().Method = "HEAD"
+						}
+						res.Probes["method_rewritten_in_handler"]++
+					}
 					writer()
 				}
 				rwFlame().ServeHTTP(under, &http.Request{Method: method, URL: &url.URL{Path: "/h"}, Header: http.Header{}, Proto: "HTTP/1.1", ProtoMajor: 1, ProtoMinor: 1, Host: "sim", RequestURI: "/h"})
